@@ -3,6 +3,8 @@ package props
 import (
 	"encoding/json"
 	"fmt"
+	"os"
+	"path/filepath"
 	"strings"
 	"testing"
 
@@ -17,6 +19,9 @@ type c12Case struct {
 	Graph       *m.Graph      `json:"graph"`
 	Maps        *m.SourceMaps `json:"source_maps,omitempty"`
 	Opts        m.LDOpts      `json:"ld_opts"`
+	// Route: "" the library call; "cli-stdout" what `acv validate P D` prints; "cli-file-fresh" / "cli-file-longer" /
+	// "cli-file-shorter" what `acv validate P D OUT` leaves in OUT when OUT was absent / held more / held less
+	Route string `json:"route,omitempty"`
 }
 
 func genC12(t *rapid.T) c12Case {
@@ -68,6 +73,11 @@ func genC12(t *rapid.T) c12Case {
 		c.Maps = genSourceMaps(t, gr)
 	}
 	c.Opts = m.LDOpts{Unwrap1: rapid.Bool().Draw(t, "unwrap1"), Embed: rapid.Bool().Draw(t, "embed")}
+	// the report a user reads is most often the one the command line tool prints or leaves in a file
+	if rapid.IntRange(0, 7).Draw(t, "cliRoute") == 0 {
+		c.Route = pick(t, []string{"cli-stdout", "cli-file-fresh", "cli-file-longer", "cli-file-shorter"}, "route")
+	}
+	genScale(t, gr, 16)
 	return c
 }
 
@@ -214,14 +224,47 @@ func decideC12(c c12Case) ev.Verdict {
 	if res.failed() {
 		return ev.Violation("c12-call-failed:"+classifyErr(res), "validation failed: %s\n%s", trunc(res.errString(), 400), c.ProfileText)
 	}
+	if c.Route != "" && os.Getenv("ACV_BIN") != "" {
+		dir := scratchDir()
+		pf, df, of := filepath.Join(dir, "c12p.yaml"), filepath.Join(dir, "c12d.jsonld"), filepath.Join(dir, "c12out.jsonld")
+		_ = os.WriteFile(pf, []byte(c.ProfileText), 0o644)
+		_ = os.WriteFile(df, []byte(data), 0o644)
+		_ = os.Remove(of)
+		args := []string{"validate", pf, df}
+		switch c.Route {
+		case "cli-file-longer": // what an earlier, longer run left there
+			_ = os.WriteFile(of, []byte(res.Report+"\n"+res.Report+strings.Repeat("\n{\"earlier\": \"content\"}", 200)), 0o644)
+		case "cli-file-shorter":
+			_ = os.WriteFile(of, []byte("[{\"@id\": \"earlier\"}]"), 0o644)
+		}
+		if c.Route != "cli-stdout" {
+			args = append(args, of)
+		}
+		so, se, exit, err := runACV(args...)
+		if err != nil {
+			return ev.Verdict{Discard: true, Detail: err.Error(), Obs: map[string]int{"helper_failures": 1}}
+		}
+		if exit != 0 {
+			return ev.Violation("c12-cli-failed", "%s: acv validate exits %d on inputs the library validates: %s", c.Route, exit, trunc(se, 300))
+		}
+		if c.Route == "cli-stdout" {
+			res.Report = so
+		} else {
+			b, rerr := os.ReadFile(of)
+			if rerr != nil {
+				return ev.Violation("c12-cli-no-file", "%s: no output file after exit 0: %v", c.Route, rerr)
+			}
+			res.Report = string(b)
+		}
+	}
 	var doc any
 	dec := json.NewDecoder(strings.NewReader(res.Report))
 	dec.UseNumber()
 	if err := dec.Decode(&doc); err != nil {
-		return ev.Violation("c12-not-json", "report is not JSON: %v", err)
+		return ev.Violation("c12-not-json", "%sreport is not JSON: %v", c.Route+" ", err)
 	}
 	if dec.More() {
-		return ev.Violation("c12-not-json", "trailing data after the report document")
+		return ev.Violation("c12-not-json", "%strailing data after the report document", c.Route+" ")
 	}
 	arr, ok := doc.([]any)
 	if !ok || len(arr) != 1 {
@@ -273,6 +316,12 @@ func decideC12(c c12Case) ev.Verdict {
 		}
 	}
 	v := ev.Verdict{OK: true, Obs: map[string]int{"ids_checked": len(ids)}}
+	if c.Route != "" && os.Getenv("ACV_BIN") != "" {
+		v.Labels = append(v.Labels, "route:"+c.Route)
+	}
+	if c.Graph.Bulk > 0 {
+		v.Labels = append(v.Labels, "bulk-nodes")
+	}
 	v.Labels = append(v.Labels, fmt.Sprintf("max-traces:%d", minInt(st.maxTraces, 5)), fmt.Sprintf("subresult-depth:%d", minInt(st.maxDepth, 5)), fmt.Sprintf("max-subresults-per-trace:%d", minInt(st.maxSubs, 5)))
 	if st.locations > 0 {
 		v.Labels = append(v.Labels, "has-location-nodes")
